@@ -266,11 +266,32 @@ func runCheck(eng *Engine, start time.Time) int {
 					timeout = tv
 				}
 			}
-			if j.ob.Kind == "canary" && *flagTier != "thorough" && timeout > 15 {
+			if j.ob.Kind == "canary" {
 				// a reachability witness either comes quickly or (with quantified assumptions) not at all
-				timeout = 15
+				lim := 15
+				if *flagTier == "thorough" {
+					lim = 60
+				}
+				if timeout > lim {
+					timeout = lim
+				}
 			}
-			if len(j.iz3) > 0 {
+			if len(j.iz3) > 0 && j.ob.Kind != "canary" {
+				// a short attempt on the original (quantified) VC first: some goals are immediate for one solver there
+				// while their instantiated variants are hard for all of them
+				pre := 3
+				if *flagTier == "thorough" {
+					pre = 20
+				}
+				if pre < timeout {
+					r0 := raceFiles(j.z3file, j.cvcfile, pre, seed, false)
+					if r0.Status == "unsat" || r0.Status == "sat" {
+						r = r0
+						done = true
+					}
+				}
+			}
+			if !done && len(j.iz3) > 0 {
 				// quantifier-free instantiated variant(s) first; only "unsat" (of every case) is conclusive for them
 				it := timeout / 2
 				if it < 5 {
